@@ -194,10 +194,15 @@ def scenario(kind, dt, qtype, act, frozen, cycles, x, read, sym_hook=None, strea
             except Exception as e:  # noqa
                 probs.append(f"cycle {cyc} target {target}: load raised {type(e).__name__}: {str(e)[:300]}")
                 continue
-            st_t = model_state(tgt, read)
-            for p in compare_states(st_src, st_t):
-                probs.append(f"cycle {cyc} target {target}: {p}")
-            y_t = out(tgt)
+            # the saved model runs (y_src above): a reloaded model whose state cannot be read or whose forward raises did not round-trip
+            try:
+                st_t = model_state(tgt, read)
+                for p in compare_states(st_src, st_t):
+                    probs.append(f"cycle {cyc} target {target}: {p}")
+                y_t = out(tgt)
+            except (RuntimeError, ValueError, IndexError, TypeError, AssertionError) as e:
+                probs.append(f"cycle {cyc} target {target}: the reloaded model cannot be used: {type(e).__name__}: {str(e)[:300]}")
+                continue
             if not same(y_src, y_t):
                 probs.append(f"cycle {cyc} target {target}: outputs differ from the saved model's")
             sd2 = tgt.state_dict()
